@@ -146,8 +146,9 @@ def same_value(a, b):
   if isinstance(a, dict):
     if len(a) != len(b):
       return False
-    for (k1, v1), (k2, v2) in zip(a.items(), b.items()):
-      if not same_value(k1, k2) or not same_value(v1, v2):
+    for k1, v1 in a.items():       # dict equality does not depend on insertion order
+      match = [k2 for k2 in b if same_value(k1, k2)]
+      if len(match) != 1 or not same_value(v1, b[match[0]]):
         return False
     return True
   return a == b
